@@ -11,6 +11,21 @@
      (6 groups size max_plate_size answers) -> SampleSegregatingPermutationPlateGenerator._generate_plates: groups = the row lists
                                                of the samples in unique_sample_ids order; out = (0 labels) | (1 tag), the plate
                                                number of every row
+     (7 lower_s)                            -> argument_parsing.str_to_bool on a string whose lower() is lower_s
+     (8 items types table others)           -> argument_parsing.cast_dict_to_type: items = ((key value) ...) in dict order, types =
+                                               ((key ann) ...), ann = (0) bool | (1) int | (2) float | (3) str | (4) None | (5 n) the
+                                               n-th other callable | (6) inspect.Parameter.empty; table = ((value (lower int float)) ...)
+                                               = what s.lower(), int(s), float(s) answer for each value (results as (0 x) | (1 tag),
+                                               floats as order keys); others = (((n value) result) ...); out = ((key pval) ...),
+                                               pval = (0 b) | (1 z) | (2 key) | (3 str) | (4 o)
+     (9 words)                              -> KVAppendAction.__call__ once per word on a namespace that starts at None;
+                                               out = () | (((key value) ...))
+     (10 s sep maxsplit)                    -> s.split(sep, maxsplit)
+     (11 ((name no_default ann) ...))       -> introspection.get_required_init_args_with_annotations on a class whose __init__ has
+                                               these parameters; out = ((name ann) ...)
+     (12 modules class_name)                -> introspection.get_class over a package whose walk yields `modules` =
+                                               ((name import_ok attr) ...), attr = () | ((id truthy is_class is_subclass));
+                                               out = () | (id)
    answers : list of list of integers (one per recorded generator call).
    Result: (0 (out requests contract_ok)) | (1 tag); requests encoded as
      (0) | (1 pool k replace) | (2 n k replace) | (3 pool);
@@ -18,6 +33,7 @@
    the numpy contract of its request. *)
 From Coq Require Import ZArith List QArith.
 From Batchie Require Import Lib.Sexp Lib.Num Model.RandProg.
+From Batchie Require Lib.PyRt Model.Cli.
 Import ListNotations.
 Open Scope Z_scope.
 
@@ -35,8 +51,95 @@ Definition of_run {Out} (enc : Out -> sexp) (answers : list ans) (r : result (Ou
 
 Definition as_answers := as_listof as_Zs.
 
+(* ---- the argument-handling glue (Model/Cli.v, last part): the library primitives are answer tables ---- *)
+Definition as_ann (s : sexp) : option Cli.ann :=
+  match s with
+  | SL [SZ 0] => Some Cli.ABool | SL [SZ 1] => Some Cli.AInt | SL [SZ 2] => Some Cli.AFloat | SL [SZ 3] => Some Cli.AStr
+  | SL [SZ 4] => Some Cli.ANone | SL [SZ 5; SZ n] => Some (Cli.AOther n) | SL [SZ 6] => Some Cli.AEmpty
+  | _ => None
+  end.
+Definition of_ann (a : Cli.ann) : sexp :=
+  match a with
+  | Cli.ABool => SL [SZ 0] | Cli.AInt => SL [SZ 1] | Cli.AFloat => SL [SZ 2] | Cli.AStr => SL [SZ 3] | Cli.ANone => SL [SZ 4]
+  | Cli.AOther n => SL [SZ 5; SZ n] | Cli.AEmpty => SL [SZ 6]
+  end.
+Definition as_resZ (s : sexp) : option (result Z) :=
+  match s with SL [SZ 0; SZ z] => Some (Ok z) | SL [SZ 1; SZ t] => Some (Err t) | _ => None end.
+Definition of_pval (v : Cli.pval Z Z) : sexp :=
+  match v with
+  | Cli.VBool b => SL [SZ 0; of_bool b] | Cli.VInt z => SL [SZ 1; SZ z] | Cli.VFloat f => SL [SZ 2; SZ f]
+  | Cli.VStr s => SL [SZ 3; of_Zs s] | Cli.VOther o => SL [SZ 4; SZ o]
+  end.
+(* a value the tables do not list: Err 90 (a harness error, never an implementation behaviour) *)
+Definition table_prims (tbl : list (Cli.str * (Cli.str * result Z * result Z))) (others : list (Z * Cli.str * result Z))
+  : Cli.pyprims Z Z :=
+  Cli.mk_pyprims
+    (fun s => match PyRt.kdict_find PyRt.str_eqb tbl s with Some e => fst (fst e) | None => s end)
+    (fun s => match PyRt.kdict_find PyRt.str_eqb tbl s with Some e => snd (fst e) | None => Err 90 end)
+    (fun s => match PyRt.kdict_find PyRt.str_eqb tbl s with Some e => snd e | None => Err 90 end)
+    (fun n s => match find (fun e => (fst (fst e) =? n) && PyRt.str_eqb (snd (fst e)) s) others with
+                | Some e => snd e | None => Err 90 end).
+Definition as_sigparam (s : sexp) : option (Cli.str * Cli.sigparam) :=
+  match s with
+  | SL [n; d; a] => do n <- as_Zs n; do d <- as_bool d; do a <- as_ann a; Some (n, Cli.mk_sigparam d a)
+  | _ => None
+  end.
+(* a package as a table: module name -> (does the import succeed, the attribute of the requested name if any);
+   an object = (id, truthy, is a class, is a subclass of the base) *)
+Definition obj_t : Type := (Z * bool * bool * bool)%type.
+Definition as_obj (s : sexp) : option obj_t :=
+  match s with SL [SZ i; t; c; b] => do t <- as_bool t; do c <- as_bool c; do b <- as_bool b; Some (i, t, c, b) | _ => None end.
+Definition as_module (s : sexp) : option (Cli.str * (bool * option obj_t)) :=
+  match s with SL [n; ok; a] => do n <- as_Zs n; do ok <- as_bool ok; do a <- as_option as_obj a; Some (n, (ok, a)) | _ => None end.
+Definition table_world (mods : list (Cli.str * (bool * option obj_t))) : Cli.pyworld (option (bool * option obj_t)) obj_t :=
+  Cli.mk_pyworld
+    (fun n => if PyRt.str_eqb n Cli.s_batchie then Ok None
+              else match PyRt.kdict_find PyRt.str_eqb mods n with
+                   | Some (true, a) => Ok (Some (true, a)) | _ => Err 32 end)
+    (fun _ _ => map fst mods)
+    (fun m _ => match m with Some (_, a) => a | None => None end)
+    (fun o => snd (fst (fst o)))
+    (fun o _ => if snd (fst o) then Ok (snd o) else Err 33)
+    (fun o => snd (fst o))
+    (fun _ => Err 34).
+
 Definition run_c18 (orc : oracle) (s : sexp) : sexp :=
   match s with
+  | SL [SZ 7; lower_s] =>
+      match as_Zs lower_s with
+      | Some l => of_result of_bool (Cli.str_to_bool (table_prims [] []) (l : Cli.str))
+      | None => bad_input
+      end
+  | SL [SZ 8; items; types; tbl; others] =>
+      match as_listof (as_pair as_Zs as_Zs) items, as_listof (as_pair as_Zs as_ann) types,
+            as_listof (as_pair as_Zs (as_triple as_Zs as_resZ as_resZ)) tbl,
+            as_listof (as_pair (as_pair as_Z as_Zs) as_resZ) others with
+      | Some items, Some types, Some tbl, Some others =>
+          of_result (of_list (of_pair of_Zs of_pval)) (Cli.cast_dict (table_prims tbl others) items types)
+      | _, _, _, _ => bad_input
+      end
+  | SL [SZ 9; words] =>
+      match as_listof as_Zs words with
+      | Some words => of_result (of_option (of_list (of_pair of_Zs of_Zs))) (Cli.kv_parse None words)
+      | None => bad_input
+      end
+  | SL [SZ 10; str; sep; n] =>
+      match as_Zs str, as_Zs sep, as_Z n with
+      | Some str, Some sep, Some n => of_result (of_list of_Zs) (Cli.str_split str sep n)
+      | _, _, _ => bad_input
+      end
+  | SL [SZ 11; ps] =>
+      match as_listof as_sigparam ps with
+      | Some ps => of_list (of_pair of_Zs of_ann) (fold_left Cli.required_step ps [])
+      | None => bad_input
+      end
+  | SL [SZ 12; mods; name] =>
+      match as_listof as_module mods, as_Zs name with
+      | Some mods, Some name =>
+          of_result (of_option (fun o : obj_t => SZ (fst (fst (fst o)))))
+                    (Cli.get_class (table_world mods) Cli.s_batchie name Cli.BScorer)
+      | _, _ => bad_input
+      end
   | SL [SZ 0; plates; answers] =>
       match as_Zs plates, as_answers answers with
       | Some plates, Some answers =>
